@@ -60,7 +60,7 @@ class C05(core.Check):
         'org:zone-offset-0', 'org:zone-offset-last', 'org:zone-offset-past', 'org:bare-after-zone', 'org:GLOBAL-relative',
         'same-zone>=3-stretches', 'create:valid', 'create:outside-global', 'create:duplicate', 'create:inverted',
         'create:beyond-width', 'layout:global-redefined', 'layout:overlapping', 'layout:adjacent', 'layout:nested',
-        'include-from-zone', 'include-from-zone-then-continue', 'zone-switch-in-unselected-branch', 'isa-zone:inverted', 'isa-zone:beyond-width', 'expect:ACCEPT', 'expect:REJECT']}
+        'include-from-zone', 'include-from-zone-then-continue', 'zone-switch-in-unselected-branch', 'isa-zone:inverted', 'isa-zone:beyond-width', 'inverted-by-1', 'expect:ACCEPT', 'expect:REJECT']}
 
     def build(self, rng, directed=None):
         addr_bits = rng.choice([8, 10, 12, 16])
@@ -246,6 +246,7 @@ class C05(core.Check):
         main = [{'k': 'data', 'width': 1, 'vals': [0x42]}]
         isa_zones = list(zones)
         force = None
+        which_extra = None
         if which == 'create:outside-global':
             if gz:
                 variants = [(G[0] - 3, G[0] + 5), (G[1] - 4, G[1] + 1), (G[1] + 2, G[1] + 9), (0, G[0] - 1), (G[0] - 1, G[0]),
@@ -267,7 +268,9 @@ class C05(core.Check):
             else:
                 main.insert(0, {'k': 'create_memzone', 'name': nm, 'start': G[0] + 20, 'end': G[0] + 25})
         elif which == 'create:inverted':
-            main.insert(0, {'k': 'create_memzone', 'name': 'NEWZ', 'start': G[0] + 30, 'end': G[0] + 25})
+            inv_by = [1, 5, 1, 2, 30][(i // 7) % 5]          # start exactly one above end is inverted too
+            main.insert(0, {'k': 'create_memzone', 'name': 'NEWZ', 'start': G[0] + 30, 'end': G[0] + 30 - inv_by})
+            which_extra = 'inverted-by-1' if inv_by == 1 else None
         elif which == 'create:beyond-width':
             main.insert(0, {'k': 'create_memzone', 'name': 'NEWZ', 'start': top - 2, 'end': top + rng.choice([1, 2, 300])})
         elif which == 'create:valid':
@@ -275,14 +278,16 @@ class C05(core.Check):
             main.insert(0, {'k': 'create_memzone', 'name': 'NEWZ', 'start': s, 'end': s + 5})
             main += [{'k': 'memzone', 'name': 'NEWZ'}, {'k': 'data', 'width': 1, 'vals': [0x43, 0x44]}]
         elif which == 'isa-zone:inverted':
-            isa_zones.append({'name': 'BADZ', 'start': G[0] + 40, 'end': G[0] + 30})
+            inv_by = [1, 10, 1, 2][(i // 7) % 4]
+            isa_zones.append({'name': 'BADZ', 'start': G[0] + 40, 'end': G[0] + 40 - inv_by})
+            which_extra = 'inverted-by-1' if inv_by == 1 else None
             force = 'REJECT'
         elif which == 'isa-zone:beyond-width':
             isa_zones.append({'name': 'BADZ', 'start': top - 4, 'end': top + rng.choice([1, 5])})
             force = 'REJECT'
         isa = gen_prog.layout_isa(addr_bits, zones=isa_zones, global_zone=gz, origin=G[0] if gz else None)
-        return self.finish(rng, isa, main, {}, addr_bits, zones if force else isa_zones, gz, G[0] if gz else None, {which},
-                           force_kind=force)
+        return self.finish(rng, isa, main, {}, addr_bits, zones if force else isa_zones, gz, G[0] if gz else None,
+                           {which} | ({which_extra} if which_extra else set()), force_kind=force)
 
     def cases(self, tier, seed):
         n_pre = 260
